@@ -700,6 +700,31 @@ pub fn c06(tier: Tier) -> i32 {
             if tier == Tier::Quick { dq } else { dt },
         ));
     }
+    // independence through the chain: two users on one commitment where (a) the one stored first holds a blob that does
+    // not decrypt, (b) both hold the very same appointment - each one's outcome (tracker, confirmation, completion,
+    // refund) is their own
+    for (label, u1, u2) in [("junk-first", Blob::Raw(40), Blob::Valid), ("wrong-key-first", Blob::WrongKey, Blob::Valid), ("identical", Blob::Valid, Blob::Valid)] {
+        let add = |u, b| Ev::Add { user: u, disp: 1, blob: b, tsd: 42 };
+        let sd = vec![
+            Ev::Register(1),
+            Ev::Register(2),
+            add(1, u1),
+            add(2, u2),
+            Ev::MineP(MineSel::Txs(vec![TxName::D(1)])),
+            Ev::MineP(MineSel::Mempool),
+            Ev::Advance(98),
+            Ev::MineP(MineSel::Empty),
+            Ev::MineP(MineSel::Empty),
+            Ev::MineP(MineSel::Empty),
+        ];
+        let mut a = Alphabet::basic();
+        a.max_adds = 0;
+        a.max_registers_per_user = 0;
+        a.mine_dispute = false;
+        a.mine_mempool = false;
+        a.mine_empty = false;
+        models.push((TowerModel { label: format!("C06/shared-commitment/{label}"), cfg: cfg(3, 400, 6), seed: sd, alphabet: a, props: vec!["C06"], probe: true, forgery: None }, 0));
+    }
     run_models(&run, models, budget(tier, 50, 700));
     run.set("forged_requests", json!(crate::tmodel::FORGED_REQUESTS.load(std::sync::atomic::Ordering::Relaxed)));
     run.assume("a mutated signature never recovers to a registered key by chance (probability ~2^-250)");
